@@ -133,6 +133,19 @@ def C31 : List (String × String) := [("NewHint", "93f38caf0dad8228"),
 
 def C35 : List (String × String) := []
 
+def C37 : List (String × String) := [("newMembersPool", "4ece4fcbe2dcdb24"),
+  ("membersPool.Empty", "431883986d0c8beb"),
+  ("membersPool.Exists", "2b0fc19bd90c3ca6"),
+  ("membersPool.Get", "21092d8a7915c72d"),
+  ("membersPool.MembersLenOthers", "56da35179465b158"),
+  ("membersPool.MembersLen", "967dc9d3211c8243"),
+  ("membersPool.Set", "d110a76f0dcccfc3"),
+  ("membersPool.Remove", "1d7e70984aecf7db"),
+  ("membersPool.removeFromNode", "2bb2db03ac1a30de"),
+  ("membersPool.Len", "d64d859a44033f44"),
+  ("membersPool.Traverse", "b706778b0ae5116c"),
+  ("memberid", "a66521abd808008b")]
+
 def C38 : List (String × String) := [("ProposalMaker.PreferEmpty", "557bd293dd5b599b"),
   ("ProposalMaker.preferEmpty", "8e490e5d12ad5ee1"),
   ("ProposalMaker.Make", "e34ede2b909caf8a"),
